@@ -449,6 +449,25 @@ def prepare_dst(dst_real, state):
     return out
 
 
+def reset_victim(env):
+    """the file and directory outside every destination that link targets point at, in a known state"""
+    try:
+        st = os.lstat(env.victim)
+        ok = st.st_size == 6 and (st.st_mode & 0o7777) == 0o600 and st.st_mtime == 1500000000
+    except OSError:
+        ok = False
+    if not ok:
+        with open(env.victim, 'w') as f_:
+            f_.write('victim')
+        os.chmod(env.victim, 0o600)
+        os.utime(env.victim, (1500000000, 1500000000))
+    d = os.path.join(env.outside, 'dir')
+    if not os.path.isdir(d) or os.listdir(d) or (os.lstat(d).st_mode & 0o7777) != 0o755:
+        shutil.rmtree(d, ignore_errors=True)
+        os.makedirs(d)
+        os.chmod(d, 0o755)
+
+
 def snapshot(tree):
     from .props import c13
     return c13.snapshot(tree)
@@ -474,10 +493,7 @@ async def run_case(env, sftp, case, k):
     os.makedirs(work)
     with open(os.path.join(work, 'sibling'), 'w') as f_:
         f_.write('sibling')
-    with open(env.victim, 'w') as f_:
-        f_.write('victim')
-    os.chmod(env.victim, 0o600)
-    os.utime(env.victim, (1500000000, 1500000000))
+    reset_victim(env)
     env.spec = case['spec']
     env.top_dirs = set(case.get('top_dirs', []))
     if remote_dst:
@@ -501,7 +517,14 @@ async def run_case(env, sftp, case, k):
             errors.append(exc)
         rec.add('err', c or 'EOther', getattr(exc, 'dstpath', b''))      # a glob error has no dstpath
 
-    before = snapshot(env.base)
+    watched = [env.outside, work] + ([rwork] if remote_dst else [])
+
+    def snap():
+        out_ = {}
+        for d_ in watched:
+            out_.update(snapshot(d_))
+        return out_
+    before = snap()
     kw = dict(preserve=case['preserve'], recurse=case['recurse'], follow_symlinks=case['follow'], sparse=False,
               error_handler=on_error if case['handler'] else None)
     raised = None
@@ -534,7 +557,7 @@ async def run_case(env, sftp, case, k):
             await asyncio.sleep(0)
     if errors:
         unexpected = repr(errors[0])
-    after = snapshot(env.base)
+    after = snap()
     dst_s = os.fsdecode(dst_real)
     skip = {work, os.path.join(env.remote_root.decode(), 'w%d' % k)}
     changed = sorted(p for p in set(before) | set(after) if before.get(p) != after.get(p))
@@ -542,7 +565,9 @@ async def run_case(env, sftp, case, k):
                if not (p == dst_s or p.startswith(dst_s + '/')) and p not in skip]
     shutil.rmtree(work, ignore_errors=True)
     if remote_dst:
-        shutil.rmtree(os.path.join(env.remote_root.decode(), 'w%d' % k), ignore_errors=True)
+        shutil.rmtree(rwork, ignore_errors=True)
+    if case.get('cleanup'):
+        shutil.rmtree(case['cleanup'], ignore_errors=True)
     return {'events': rec.events, 'raised': raised, 'table': rec.table, 'outside': outside, 'dst': dst, 'fs0': fs0,
             'unexpected': unexpected, 'conflicts': rec.conflicts}
 
@@ -686,6 +711,7 @@ def gen_remote_case(rng, env, k, api):
         src = os.path.join(env.base, 'lsrc%d' % k).encode()
         build_local_tree(rng, src, env.outside)
         case['srcpaths'] = src
+        case['cleanup'] = src
         case['tops'] = [(posixpath.basename(src), src, 'D')]
         case['tops_lit'] = '[(%s, %s)]' % (zl(posixpath.basename(src)), local_node_coq(src, case['follow']))
     return case
@@ -816,6 +842,9 @@ async def session(ctx, env, cases, batch):
     finally:
         if old_batch is not None:
             sftp_mod._MAX_READDIR_NAMES = old_batch
+        gc.collect()
+        for _ in range(6):
+            await asyncio.sleep(0)
         conn.close()
         listener.close()
         await listener.wait_closed()
@@ -834,12 +863,27 @@ def make_env():
     env.top_dirs = set()
     env.remote_rec = None
     env.tap = LocalTap()
+    reset_victim(env)
     return env
 
 
 def stage_copy(ctx):
     import asyncssh.sftp as sftp_mod
     rng = ctx.rng
+    ctx.cov['trusted_base'] += [
+        'recursive copy plan (Model/CopyPlan.v): the destination file system is an abstract map path -> kind '
+        '(parents of created entries exist, no ".." semantics, byte-exact names: no case folding / normalisation, nobody '
+        'else modifies the destination during the copy); it is tied to the real local file system (get, mget) and to a '
+        'real chrooted SFTPServer tree (put, copy) by the correspondence on every run',
+        'whatever is reached THROUGH a symbolic link is an oracle: universally quantified in the theorems, instantiated '
+        'with the observed answer in the correspondence; pre-existing symbolic links inside the destination are excluded '
+        'by the explicit premise no_links of C13_copy_resolves_inside',
+        'copy plan: block transfer of file data, names containing NUL (ValueError is not caught by _copy), glob patterns '
+        'other than dir/*, a failing preserve-stat on the source and exceptions raised by the error handler are not '
+        'modelled; in the correspondence a duplicate name shows the same contents each time (the theorems cover '
+        'arbitrary trees); the wrapped methods of asyncssh.sftp.local_fs / the SFTPServer subclass are trusted to see '
+        'every destination call (the before/after snapshot oracle does not depend on them)',
+    ]
     env = make_env()
     base_b = env.base.encode()
     _PFX['base'] = base_b
@@ -853,10 +897,10 @@ def stage_copy(ctx):
     def delivered(n):
         return (n // real_batch) * real_batch
 
-    n = 1200 if ctx.tier == 'thorough' else 150
+    n = 2000 if ctx.tier == 'thorough' else 110
     cases = [fixed_case(env, k, fx) for k, fx in enumerate(FIXED)]
     cases += [gen_case(rng, env, len(FIXED) + k) for k in range(n)]
-    n_remote = 240 if ctx.tier == 'thorough' else 40
+    n_remote = 400 if ctx.tier == 'thorough' else 30
     cases += [gen_remote_case(rng, env, len(cases) + k, 'copy' if k % 2 == 0 else 'put') for k in range(n_remote)]
     env.tap.install()
     try:
